@@ -317,6 +317,70 @@ func TestVFC12RateLimitHTTP(t *testing.T) {
 					vfC12.Class("limiter:limit_reached")
 				}
 			},
+			"basic_attempt": func(t *rapid.T) {
+				// user name and password presented with a request itself (HTTP
+				// Basic) are a login attempt like one through the form: the
+				// same count, the same block
+				remote := rapid.SampledFrom(remotes).Draw(t, "remote")
+				correct := rapid.IntRange(0, 2).Draw(t, "correct") == 0
+				user, pass := vfAdminUser, "wrong"
+				if correct {
+					pass = vfAdminPass
+				} else if rapid.IntRange(0, 3).Draw(t, "unknown_user") == 0 {
+					user = "nobody"
+				}
+				blocked, amb := m.state(remote, now)
+				if amb {
+					// the status of a refused Basic request does not tell a
+					// blocked address from a wrong password: no way to
+					// resynchronise the model at the boundary
+					t.Skip("boundary instant")
+				}
+				hadFailures := m.count[remote] > 0
+				before := vfCountSessions()
+				r := httptest.NewRequest(http.MethodGet, "http://agh.vf.test/control/status", nil)
+				r.SetBasicAuth(user, pass)
+				r.RemoteAddr = remote
+				rec := httptest.NewRecorder()
+				h.ServeHTTP(rec, r)
+				trace = append(trace, fmt.Sprintf("t=%s %s basic correct=%t -> %d", now, remote, correct, rec.Code))
+				vfC12.Eval()
+				fail := func(format string, args ...any) {
+					t.Fatalf("%s\nmax=%d block=%s trace:\n%s", fmt.Sprintf(format, args...), max, blockDur, strings.Join(trace, "\n"))
+				}
+				if vfCountSessions() != before {
+					fail("a Basic request changed the number of sessions")
+				}
+				switch {
+				case blocked:
+					vfC12.Class("limiter:basic_while_blocked")
+					if correct {
+						correctWhileBlocked = true
+						vfC12.Class("limiter:basic_correct_password_while_blocked")
+					}
+					if rec.Code == http.StatusOK {
+						fail("a request with Basic credentials (correct=%t) from a blocked address was served", correct)
+					}
+				case correct:
+					if rec.Code != http.StatusOK {
+						fail("correct Basic credentials from a non-blocked address: status %d", rec.Code)
+					}
+					if hadFailures {
+						clearedBySuccess = true
+						vfC12.Class("limiter:basic_success_clears_count")
+					}
+					m.success(remote)
+				default:
+					if rec.Code == http.StatusOK {
+						fail("wrong Basic credentials were accepted")
+					}
+					m.fail(remote, now)
+					if m.blocked[remote] {
+						reachedLimit = true
+						vfC12.Class("limiter:limit_reached_by_basic")
+					}
+				}
+			},
 			"many_other_addresses_fail": func(t *rapid.T) {
 				// a burst of wrong logins from many other addresses (a scan, a
 				// botnet): the three observed addresses keep their state
